@@ -409,6 +409,40 @@ pub fn run(rep: &Report) -> i32 {
             }
         }
     }
+    // (2d) a long history of names in one process: several thousand renamings with identifiers never seen before, all
+    // five roles at once, one after the other on this thread; every one must compile to the baseline's CMR, and the
+    // baseline itself must still do so afterwards (tables of names that grow, wrap or are cleared)
+    {
+        let n = if quick { 2500 } else { 20000 };
+        rep.set("fresh_name_history", json!(n));
+        let mut bad = 0;
+        for k in 0..n {
+            let mut p = baseline();
+            for (ri, role) in ROLES.iter().enumerate() {
+                // alias names must start with an upper-case letter? no such rule: any identifier; keep them distinct per role
+                let id = format!("{}{}_{k:05}", ["va", "fn_", "Al", "Wi", "Pa"][ri % 5], ri);
+                p = rename(&p, placeholder(role), &id);
+            }
+            let text = plain_names(&p).render();
+            rep.state();
+            rep.transition(1);
+            rep.eval(1);
+            rep.trace(1);
+            match cmr_of(&text) {
+                Ok(c) if c == base_cmr => rep.class("accepted-equal-cmr"),
+                other => {
+                    bad += 1;
+                    if bad <= 3 {
+                        rep.violation("C17:renaming-depends-on-names-seen-before", format!("renaming number {k} with identifiers never used before in this process: {}", match other { Ok(_) => "different program".to_string(), Err(e) => format!("rejected: {e}") }), json!({"kind": "compile", "program": text, "expect": "accept", "observed": "differs-after-history", "note": "needs the history: this is renaming number k of a run of fresh names in one process"}));
+                    }
+                }
+            }
+        }
+        match cmr_of(&base_text) {
+            Ok(c) if c == base_cmr => {}
+            other => rep.violation("C17:baseline-changes-after-many-names", format!("after {n} renamings with fresh names the baseline itself gives {:?}", other.map(|_| "another CMR")), json!({"kind": "compile", "program": base_text, "expect": "accept", "observed": "differs-after-history"})),
+        }
+    }
     // (3) parse trees equal after renaming back is implied by equal CMR; additionally the renamed program must parse
     let _ = simfony::parse::Program::parse_from_str(&base_text);
     rep.finish(
